@@ -1014,11 +1014,15 @@ impl<'a> Ctx<'a> {
     fn lower_comptime(&mut self, comptime_expr: ast::ComptimeExpr) -> Expr {
         let old_params = mem::take(&mut self.params);
         let old_scopes = mem::take(&mut self.scopes);
+        // a comptime block gets compiled as its own function,
+        // so it can't jump to the labels of the surrounding code
+        let old_labels = mem::take(&mut self.label_kinds);
 
         let body = self.lower_expr(comptime_expr.body(self.tree));
 
         self.params = old_params;
         self.scopes = old_scopes;
+        self.label_kinds = old_labels;
 
         Expr::Comptime(self.bodies.comptimes.alloc(Comptime { body }))
     }
